@@ -204,7 +204,10 @@ class C19(Check):
                         return plain_fn()
                 fn = _sfn  # noqa: E731
 
-        with ch.captured_sleeps():
+        import contextlib
+        from pbt import serverharness as sh
+        # with the library's LoggingTracer configured, the library loggers run at DEBUG (its records are really produced and formatted)
+        with ch.captured_sleeps(), (sh.debug_logging() if style == 'logging-first' else contextlib.nullcontext()):
             try:
                 value, exc = ch.call(kind, fn), None
             except BaseException as e:  # noqa
